@@ -147,15 +147,47 @@ def task_bounds(fn, ms=600):
                 import scipy.optimize as so
                 mm = sys.modules[ld.pkg + '._math']
                 restore = [(so, 'fsolve', so.fsolve), (mm, 'log', mm.log)]
-                so.fsolve = lambda f, x0, *a, **k: SReal(z3.Real('fsolve_root'))
-                mm.log = _fresh_fn('log', positive=False)
-                c.stubs_hit.add('scipy.optimize.fsolve stubbed by an unconstrained value; math.log opaque')
+                class ResidualUndefined(ValueError): pass
+                def _fsolve(f, x0, *a, **k):
+                    # scipy evaluates the residual at the starting estimate before anything else:
+                    # sat() must return a number there (None - p is a TypeError)
+                    try: f(x0)
+                    except TypeError as ex: raise ResidualUndefined(str(ex))
+                    return SReal(z3.Real('fsolve_root'))
+                so.fsolve = _fsolve
+                _olog = _fresh_fn('log', positive=False)
+                def _log(x):
+                    # opaque, except for the contract "monotone": inside the stated pressure range
+                    # log(p) lies between the logarithms of the range limits (real math.log, widened)
+                    r = _olog(x)
+                    if sym.is_sym(x):
+                        import math
+                        xe = sym.lift_real(x)
+                        c.add(z3.Implies(z3.And(xe >= fr(float(plo)), xe <= fr(PC67)),
+                                         z3.And(r.e >= fr(math.log(float(plo)) - 1e-9), r.e <= fr(math.log(PC67) + 1e-9))))
+                    return r
+                mm.log = _log
+                c.stubs_hit.add('scipy.optimize.fsolve stubbed: evaluates the residual once at the starting estimate, then returns an unconstrained value; math.log opaque but bounded by its values at the range limits (monotone)')
             try:
                 if fn == 'cowat': ret, log, _ = capture(SRC, T.cowat, t, p, True, only=('cowat',))
                 elif fn == 'supst': ret = T.supst(t, p, True)
                 elif fn == 'sat': ret = T.sat(t, True)
                 else: ret = T.tsat(p, True)
             except (ZeroDivisionError, ValueError, OverflowError) as ex:
+                if fn == 'tsat' and type(ex).__name__ == 'ResidualUndefined':
+                    r, m = c.reachable()
+                    c.prove(z3.BoolVal(r == 'unsat'), 'tsat: the residual sat(t) - p is defined at the starting estimate for every pressure in range')
+                    if r == 'sat':
+                        # log is only bounded, not known: prefer a witness at a range limit (the estimate is monotone in p)
+                        for extreme in (p.e == fr(PC67), p.e == fr(float(plo))):
+                            r2, m2 = c.solve(extreme, full=True)
+                            if r2 == 'sat': m = m2; break
+                        w = {k: _mv(m, v) for k, v in names.items()}
+                        failures.append(dict(key='bounds/tsat/residual-undefined-at-starting-estimate',
+                                             what='tsat(p=%s, bounds=True): sat() returns no value at the starting estimate of the solver (%s)' % (float(w['p']), ex),
+                                             replay=dict(kind='tsat-start', **w)))
+                    elif r != 'unsat': undecided.append('tsat starting estimate path: %s' % r)
+                    return 'residual undefined at the starting estimate'
                 r, m = c.reachable()
                 if r == 'sat':
                     w = {k: _mv(m, v) for k, v in names.items()}
